@@ -253,4 +253,21 @@ def URL.ofComponents (scheme : Option Str) (hasAuthority : Bool) (user pass host
 def URL.ofRelRef (r : Ref) : URL :=
   URL.ofComponents none false [] [] [] false 0 r.path r.query r.fragment
 
+/-! ### `URL(text)` for a reference text without scheme and authority: where the path, the query and the fragment
+    of the text are (boltons' `_URL_RE`, groups `path`, `query`, `fragment`) -/
+
+/-- cut at the first `c`: (before, after-or-nothing) -/
+def cutAt (c : Char) : Str → Str × Option Str
+  | [] => ([], none)
+  | x :: xs => if x = c then ([], some xs) else ((x :: (cutAt c xs).1), (cutAt c xs).2)
+
+/-- the components of a reference text that has neither scheme nor authority: the fragment starts at the first
+    `#`, the query at the first `?` before it -/
+def refOfText (t : Str) : Ref :=
+  { scheme := none, authority := none, path := (cutAt '?' (cutAt '#' t).1).1,
+    query := (cutAt '?' (cutAt '#' t).1).2, fragment := (cutAt '#' t).2 }
+
+/-- `URL(text)` for such a text -/
+def URL.ofText (t : Str) : URL := URL.ofRelRef (refOfText t)
+
 end C07
